@@ -20,6 +20,10 @@ for (k, v), name in zip(fn.items(), dem):
     if v[1] == 0:
         byfile.setdefault(k[0], []).append((k[1], name))
 for f in sorted(byfile):
+    src = open(f).read().splitlines()
     print(f.replace('/repo/etherparse/src/', ''))
     for line, name in sorted(byfile[f]):
-        print('   %5d %s' % (line, name[:150]))
+        text = src[line - 1].strip() if line - 1 < len(src) else ''
+        if 'fn ' not in text and line < len(src):
+            text = text + ' ' + src[line].strip()
+        print('   %5d %s' % (line, text[:140]))
